@@ -26,8 +26,16 @@ message in wait_for_drop_completion is the identity on the model state and dropp
 The canonical history is a list of Model/Worker.v labels; `chk_proto` replays it with vm_compute: it must be a trace of the
 model from the initial state that ends in an exited state with the observed outcome and store content.
 
-  check(rep_prefix, tier, seed) -> list of disagreements   (counters in LAST_INFO)
+  check(rep_prefix, tier, seed, n_specs=None, focus=None) -> list of disagreements   (counters in LAST_INFO; FOCUS: what C08 / C09 pay for)
+  report(rep, "C08"|"C09", tier, seed)                    what harness/c08.py and harness/c09.py call (proof + check + findings)
+  replay_main(case, prop)                                 ./check <prop> --replay <file> for a stored case (kind "worker_proto")
+  slow_consumer_case(pause_s, rep_prefix) -> [problems]   one paused-consumer stream (for C13)
   python3 -m harness.worker_proto [n_specs|- [seed [tier [C08|C09]]]]  self test
+  python3 -m harness.worker_proto --case <workerdrop|stale|requeue|slow:<s>> <out.json>   one slow special case (child of check)
+
+The slow special cases (a worker dying in its drop path: 5 s stall; a DROP_COMPLETE that arrives after the 5 s wait gave up and is polled
+later; a step result put back by a wait that then times out; a stream consumer pausing for > 10 s) sleep most of the time: check()
+observes them in parallel subprocesses and merges their digests (term for chk_proto, case for the replay, judge lines, counters).
 """
 from __future__ import annotations
 
